@@ -110,8 +110,17 @@ static void cmdline_input(const std::string &line, Rng &r) {
 	case_detail("cmdline \"%s\"", line.c_str());
 	Cell flag_a(sizeof(bool)), flag_b(sizeof(bool)), sv(sizeof(frg::string_view)), sv2(sizeof(frg::string_view)), i8(1), u8(1), i32(4), u64(8), i64(8), u16(2);
 	new (sv.p) frg::string_view(); new (sv2.p) frg::string_view();
-	int table = r.below(5);
+	int table = r.below(6);
 	try {
+		if(table == 5) { // a table that is computed on the fly: a view that builds each frg::option when the iterator is dereferenced
+			// (parse_arguments takes any range of options; the options of such a range are temporaries)
+			struct Setting { const char *name; int kind; void *target; };
+			std::vector<Setting> settings = {{"a", 0, flag_a.p}, {"1", 1, i32.p}, {"aa", 2, sv.p}, {"a1", 0, flag_b.p}, {"", 2, sv2.p}, {"11", 1, i32.p}};
+			auto to_option = [](const Setting &st) { return st.kind == 0 ? frg::option{st.name, frg::store_true(*(bool *)st.target)} : st.kind == 1 ? frg::option{st.name, frg::as_number(*(int32_t *)st.target)} : frg::option{st.name, frg::as_string_view(*(frg::string_view *)st.target)}; };
+			frg::parse_arguments(v, settings | std::views::transform(to_option));
+			for(auto *c : {&sv, &sv2}) { auto &sx = *(frg::string_view *)c->p; if(sx.size() && (sx.data() < g.data() || sx.data() + sx.size() > g.data() + line.size())) violation("C20:model:cmdline:value-outside-input", "option value view lies outside the command line (computed option table)"); }
+			count("cmdline_computed_option_tables");
+		} else
 		if(table == 4) { // large option tables (65, 129, 1000 entries; every option has its own exact-size target cell): the number of
 			// options is part of the input too - a scratch copy of the table with a fixed bound would be written past its end
 			static const size_t sizes[] = {65, 129, 1000, 64, 63};
